@@ -476,6 +476,20 @@ Step ==
             /\ viol' = viol \o tv \o (IF e.cpu_ms > 1500 + (e.bytes \div 1000) * 20
                                        THEN <<V("C09", "work_out_of_proportion", e.sid, [class |-> e.class, bytes |-> e.bytes, cpu_ms |-> e.cpu_ms])>> ELSE <<>>)
             /\ UNCHANGED <<cfg, Rq, Cn>>
+       [] e.e = "model.expect" ->
+            \* conformance of the real session to EioSession.tla: the projection of the model state after a replayed step
+            \* against the same projection of the real session (reported as NONCONF: a disagreement of model and code,
+            \* not by itself a breach of a property)
+            LET x == e.exp  y == e.act
+                \* an aborted poll ("gone" in the model) is no longer pending for the client
+                pollOK == (x.poll = "pending") = (y.poll = "pending")
+                diffs == (IF x.rs # y.rs THEN <<"rs">> ELSE <<>>) \o (IF x.tr # y.tr THEN <<"tr">> ELSE <<>>)
+                      \o (IF x.upgrading # y.upgrading THEN <<"upgrading">> ELSE <<>>) \o (IF x.upgraded # y.upgraded THEN <<"upgraded">> ELSE <<>>)
+                      \o (IF x.reg # y.reg THEN <<"reg">> ELSE <<>>) \o (IF x.count # y.count THEN <<"count">> ELSE <<>>)
+                      \o (IF x.wr # y.wr THEN <<"wr">> ELSE <<>>) \o (IF ~pollOK THEN <<"poll">> ELSE <<>>)
+                      \o (IF x.nclose # y.nclose THEN <<"nclose">> ELSE <<>>) \o (IF x.nrcvd # y.nrcvd THEN <<"nrcvd">> ELSE <<>>)
+            IN /\ S' = SS /\ UNCHANGED <<cfg, Rq, Cn>>
+               /\ viol' = viol \o tv \o (IF diffs = <<>> THEN <<>> ELSE <<V("NONCONF", "model_state_differs", e.sid, [after |-> e.a, fields |-> diffs, exp |-> x, act |-> y])>>)
        [] e.e = "finish" ->
             LET ivs == SelectSeq(e.left, LAMBDA g : (g = "interval"))
                 oth == SelectSeq(e.left, LAMBDA g : ~(g = "interval"))
